@@ -5,8 +5,8 @@ import (
 
 	"berty.tech/go-orbit-db/iface"
 	"berty.tech/go-orbit-db/internal/vstub"
-	"berty.tech/go-orbit-db/stores/basestore"
 	"berty.tech/go-orbit-db/internal/vstubodb"
+	"berty.tech/go-orbit-db/stores/basestore"
 	"berty.tech/go-orbit-db/stores/operation"
 )
 
@@ -122,20 +122,19 @@ func VerifC01Log() {
 		}
 		check()
 	}
-	a.SyncFrom(b)
-	b.SyncFrom(a)
-	check()
-	// a fresh replica receives the same entries by another route: manual sync,
-	// load from a's disk, or a snapshot saved by a
-	route := vstub.NdChoice("route", 3)
-	r := vstubodb.FreshFrom(NewOrbitDBEventLogStore, a, route, func(ctx context.Context, st iface.Store) error {
+	// a and b merge; a third replica receives the same entries by another route:
+	// manual sync in one batch, load from a's disk, a snapshot saved by a, or the
+	// two branches in separate batches followed by a restart from its own disk
+	r, restartBefore, restartAfter := vstubodb.Converge(NewOrbitDBEventLogStore, a, b, func(ctx context.Context, st iface.Store) error {
 		_, err := basestore.SaveSnapshot(ctx, st)
 		return err
 	})
 	if r == nil {
 		return
 	}
+	check()
 	vstub.Cover("converged")
+	vstub.Assert(vstubodb.SameStrings(restartBefore, restartAfter), "C01 a replica restarted from its own disk holds the log it held before")
 	vstub.Assert(vstubodb.SameStrings(listing(a), listing(b)), "C01 writers a and b list the same entries in the same order")
 	vstub.Assert(vstubodb.SameStrings(listing(a), listing(r)), "C01 fresh replica lists the same entries in the same order")
 	vstub.Assert(len(listing(r)) == len(ownA)+len(ownB), "C01 every written entry is listed")
